@@ -360,3 +360,234 @@ theorem inv_step (n : Net) (hnr : NoRepeat n) (h : HG) (F : Forest) (i j : Nat) 
     rw [hF' k, if_neg (fun e => hk e.symm)]
 
 end Cotengra
+
+namespace Cotengra
+open AL HGu
+
+/-! ### the initial hypergraph -/
+
+theorem get?_zipIdx {α : Type} (l : List α) (m k : Nat) :
+    get? ((l.zipIdx m).map (fun (ti : α × Nat) => (ti.2, ti.1))) k = if m ≤ k then l[k - m]? else none := by
+  induction l generalizing m with
+  | nil => simp [get?]
+  | cons a t ih =>
+    simp only [List.zipIdx_cons, List.map_cons, get?]
+    by_cases hk : m = k
+    · subst hk; simp
+    · rw [if_neg hk, ih (m + 1)]
+      by_cases hle : m ≤ k
+      · have h1 : m + 1 ≤ k := by omega
+        have h2 : k - m = (k - (m + 1)) + 1 := by omega
+        rw [if_pos h1, if_pos hle, h2, List.getElem?_cons_succ]
+      · have h1 : ¬ m + 1 ≤ k := by omega
+        rw [if_neg h1, if_neg hle]
+
+theorem ofInputs_nodes (inputs : List (List Ix)) (output : List Ix) (sizes : List (Ix × Nat)) (k : Nat) :
+    get? (HG.ofInputs inputs output sizes).nodes k = inputs[k]? := by
+  have := get?_zipIdx inputs 0 k
+  simpa [HG.ofInputs] using this
+
+theorem edges_fold (nodes : List (Nat × List Ix)) (hnd : ∀ it ∈ nodes, it.2.Nodup)
+    (ed0 : List (Ix × List Nat)) :
+    let ed := nodes.foldl (fun ed (it : Nat × List Ix) =>
+      it.2.foldl (fun ed e => set ed e (((get? ed e).getD []) ++ [it.1])) ed) ed0
+    (∀ e k, k ∈ (get? ed e).getD [] ↔ (k ∈ (get? ed0 e).getD [] ∨ ∃ it ∈ nodes, it.1 = k ∧ e ∈ it.2)) ∧
+    (∀ e, has ed e = true ↔ (has ed0 e = true ∨ ∃ it ∈ nodes, e ∈ it.2)) := by
+  induction nodes generalizing ed0 with
+  | nil => simp
+  | cons it t ih =>
+    simp only [List.foldl_cons]
+    obtain ⟨hg, hh⟩ := HG.addNode_fold it.1 it.2 ed0 (hnd it List.mem_cons_self)
+    obtain ⟨ihg, ihh⟩ := ih (fun x hx => hnd x (List.mem_cons_of_mem _ hx))
+      (it.2.foldl (fun ed e => set ed e (((get? ed e).getD []) ++ [it.1])) ed0)
+    constructor
+    · intro e k
+      rw [ihg e k, hg e, List.mem_append]
+      simp only [List.mem_cons, exists_eq_or_imp]
+      by_cases he : e ∈ it.2
+      · simp only [he, if_true, List.mem_singleton, and_true]
+        constructor
+        · rintro ((h | h) | h)
+          · exact Or.inl h
+          · exact Or.inr (Or.inl h.symm)
+          · exact Or.inr (Or.inr h)
+        · rintro (h | h | h)
+          · exact Or.inl (Or.inl h)
+          · exact Or.inl (Or.inr h.symm)
+          · exact Or.inr h
+      · simp only [he, if_false, List.not_mem_nil, or_false, and_false, false_or]
+    · intro e
+      rw [ihh e, hh e]
+      simp only [List.mem_cons, exists_eq_or_imp, Bool.or_eq_true, decide_eq_true_eq]
+      constructor
+      · rintro ((h | h) | h)
+        · exact Or.inl h
+        · exact Or.inr (Or.inl h)
+        · exact Or.inr (Or.inr h)
+      · rintro (h | h | h)
+        · exact Or.inl (Or.inl h)
+        · exact Or.inl (Or.inr h)
+        · exact Or.inr h
+
+theorem term_of_getElem? (n : Net) (k : Nat) (t : List Ix) (h : n.inputs[k]? = some t) : n.term k = t := by
+  unfold Net.term
+  rw [List.getD_eq_getElem?_getD, h]; rfl
+
+theorem mem_nodes_iff (inputs : List (List Ix)) (k : Nat) (t : List Ix) :
+    (k, t) ∈ (inputs.zipIdx.map (fun (ti : List Ix × Nat) => (ti.2, ti.1))) ↔ inputs[k]? = some t := by
+  rw [List.mem_map]
+  constructor
+  · rintro ⟨⟨t', k'⟩, hm, he⟩
+    simp only [Prod.mk.injEq] at he
+    obtain ⟨rfl, rfl⟩ := he
+    exact List.mem_zipIdx_iff_getElem?.1 hm
+  · intro h
+    exact ⟨(t, k), List.mem_zipIdx_iff_getElem?.2 h, rfl⟩
+
+/-- the forest of the uncontracted network: one leaf per input -/
+def forest0 (N : Nat) : Forest := (List.range N).map (fun i => (i, BT.leaf i))
+
+theorem forest0_get (N k : Nat) : get? (forest0 N) k = if k < N then some (BT.leaf k) else none := by
+  unfold forest0
+  induction N generalizing k with
+  | zero => simp [get?]
+  | succ m ih =>
+    rw [List.range_succ, List.map_append]
+    have hnot : has ((List.range m).map (fun i => (i, BT.leaf i))) m = false := by
+      unfold has; rw [ih]; simp
+    rw [List.map_cons, List.map_nil, get?_append_not_has _ _ _ _ hnot, ih]
+    by_cases hk : m = k
+    · subst hk; simp
+    · by_cases hlt : k < m
+      · have : k < m + 1 := by omega
+        simp [hk, hlt, this]
+      · have : ¬ k < m + 1 := by omega
+        simp [hk, hlt, this]
+
+theorem inv_init (n : Net) (hnr : NoRepeat n) :
+    Inv n (HG.ofInputs n.inputs n.output n.sizes) (forest0 n.inputs.length) := by
+  have hN : ∀ k, get? (HG.ofInputs n.inputs n.output n.sizes).nodes k = n.inputs[k]? :=
+    ofInputs_nodes n.inputs n.output n.sizes
+  have hndn : ∀ it ∈ (n.inputs.zipIdx.map (fun (ti : List Ix × Nat) => (ti.2, ti.1))), it.2.Nodup := by
+    intro it hit
+    obtain ⟨k, t⟩ := it
+    have := (mem_nodes_iff n.inputs k t).1 hit
+    rw [← term_of_getElem? n k t this]; exact hnr k
+  obtain ⟨eg, eh⟩ := edges_fold _ hndn []
+  have hed : (HG.ofInputs n.inputs n.output n.sizes).edges =
+      (n.inputs.zipIdx.map (fun (ti : List Ix × Nat) => (ti.2, ti.1))).foldl (fun ed (it : Nat × List Ix) =>
+        it.2.foldl (fun ed e => set ed e (((get? ed e).getD []) ++ [it.1])) ed) [] := rfl
+  have hE : ∀ e k, k ∈ (HG.ofInputs n.inputs n.output n.sizes).getEdge e ↔ ∃ t, n.inputs[k]? = some t ∧ e ∈ t := by
+    intro e k
+    have := eg e k
+    simp only [get?, Option.getD_none, List.not_mem_nil, false_or] at this
+    show k ∈ (get? (HG.ofInputs n.inputs n.output n.sizes).edges e).getD [] ↔ _
+    rw [hed, this]
+    constructor
+    · rintro ⟨⟨k', t⟩, hm, rfl, he⟩
+      exact ⟨t, (mem_nodes_iff n.inputs k' t).1 hm, he⟩
+    · rintro ⟨t, ht, he⟩
+      exact ⟨(k, t), (mem_nodes_iff n.inputs k t).2 ht, rfl, he⟩
+  refine ⟨⟨?_, ?_, ?_⟩, ?_, ?_, ?_, ?_, ?_, ?_, rfl, rfl⟩
+  · intro e k
+    rw [hE e k]
+    constructor
+    · rintro ⟨t, ht, he⟩; exact ⟨t, by rw [hN]; exact ht, he⟩
+    · rintro ⟨t, ht, he⟩; exact ⟨t, by rw [← hN]; exact ht, he⟩
+  · intro e
+    have := eh e
+    simp only [has, get?, Option.isSome_none, Bool.false_eq_true, false_or] at this
+    show has (HG.ofInputs n.inputs n.output n.sizes).edges e = true ↔ _
+    rw [hed]
+    unfold has
+    rw [this]
+    constructor
+    · rintro ⟨⟨k, t⟩, hm, he⟩ hnil
+      have : k ∈ (HG.ofInputs n.inputs n.output n.sizes).getEdge e :=
+        (hE e k).2 ⟨t, (mem_nodes_iff n.inputs k t).1 hm, he⟩
+      rw [hnil] at this; cases this
+    · intro hne
+      obtain ⟨k, hk⟩ := List.exists_mem_of_ne_nil _ hne
+      obtain ⟨t, ht, he⟩ := (hE e k).1 hk
+      exact ⟨(k, t), (mem_nodes_iff n.inputs k t).2 ht, he⟩
+  · intro k inds hk
+    rw [hN] at hk
+    rw [← term_of_getElem? n k inds hk]; exact hnr k
+  · intro k
+    unfold has
+    rw [forest0_get, hN]
+    by_cases hk : k < n.inputs.length
+    · simp [hk]
+    · simp [hk]
+  · intro k s inds hs hn e
+    rw [forest0_get] at hs
+    split at hs
+    · injection hs with hs; subst hs
+      rw [hN] at hn
+      show e ∈ inds ↔ e ∈ n.term k
+      rw [term_of_getElem? n k inds hn]
+    · cases hs
+  · intro k k' s s' hs hs' hkk x hx
+    rw [forest0_get] at hs hs'
+    split at hs
+    · split at hs'
+      · injection hs with hs; injection hs' with hs'; subst hs; subst hs'
+        simp only [BT.leaves, List.mem_singleton] at hx ⊢
+        omega
+      · cases hs'
+    · cases hs
+  · intro k s hs
+    rw [forest0_get] at hs
+    split at hs
+    · rename_i hk
+      injection hs with hs; subst hs
+      simp only [BT.leaves, List.nodup_cons, List.not_mem_nil, not_false_eq_true, List.nodup_nil,
+        and_self, List.mem_singleton, forall_eq, true_and]
+      exact hk
+    · cases hs
+  · intro x hx
+    exact ⟨x, .leaf x, by rw [forest0_get, if_pos hx], by simp [BT.leaves]⟩
+  · intro k hk
+    show k < n.inputs.length
+    unfold has at hk
+    rw [hN] at hk
+    by_contra hge
+    rw [List.getElem?_eq_none (by omega)] at hk
+    cases hk
+
+/-- the invariant survives any replayed contraction sequence -/
+theorem runPath_inv (n : Net) (hnr : NoRepeat n) (path : List (Nat × Nat)) (h : HG) (F : Forest)
+    (h' : HG) (F' : Forest) (inv : Inv n h F) (hrun : runPath path (h, F) = some (h', F')) :
+    Inv n h' F' := by
+  induction path generalizing h F with
+  | nil => simp only [runPath, Option.some.injEq, Prod.mk.injEq] at hrun; rw [← hrun.1, ← hrun.2]; exact inv
+  | cons ij rest ih =>
+    obtain ⟨i, j⟩ := ij
+    unfold runPath at hrun
+    split at hrun
+    · cases hrun
+    · rename_i hij
+      split at hrun
+      · cases hrun
+      · rename_i k h1 hcon
+        split at hrun
+        · cases hrun
+        · rename_i F1 hfs
+          -- both operands are in the forest
+          have hab : ∃ a b, get? F i = some a ∧ get? F j = some b := by
+            unfold forestStep at hfs
+            split at hfs
+            · rename_i a b ha hb; exact ⟨a, b, ha, hb⟩
+            · cases hfs
+          obtain ⟨a, b, ha, hb⟩ := hab
+          obtain ⟨h2, F2, hc2, hf2, inv2, _, _⟩ := inv_step n hnr h F i j hij inv a b ha hb
+          rw [hc2] at hcon
+          simp only [Option.some.injEq, Prod.mk.injEq] at hcon
+          obtain ⟨hk, hh⟩ := hcon
+          subst hk; subst hh
+          rw [hf2] at hfs
+          simp only [Option.some.injEq] at hfs
+          subst hfs
+          exact ih h2 F2 inv2 hrun
+
+end Cotengra
